@@ -198,7 +198,9 @@ pub open spec fn toks(p: Peekable<Iter<'_, SymbolicBDDToken>>) -> Seq<SymbolicBD
 pub assume_specification [std::io::_eprint] (args: core::fmt::Arguments<'_>);
 pub assume_specification [std::io::_print] (args: core::fmt::Arguments<'_>);
 
-// [A7] RefCell<FxHashMap<BDD, Rc<BDD>>> as a monitor around a finite map satisfying table_inv
+// [A7] the intern table `BDDEnv::nodes` (re-spelled InternTable by N4) is a monitor around a finite map satisfying table_inv:
+// every read through borrow()/borrow_mut() may assume the invariant, every write must preserve it.  Any OTHER
+// RefCell<FxHashMap<K, V>> (a table a change to the code might add) gets the honest weakest model: reads return anything.
 pub open spec fn table_inv(m: Map<BDD, Rc<BDD>>) -> bool {
     m.dom().contains(BDD::True) && m.dom().contains(BDD::False)
     && forall|k: BDD| m.dom().contains(k) ==> *#[trigger] m[k] == k
@@ -209,14 +211,14 @@ pub open spec fn table_inv(m: Map<BDD, Rc<BDD>>) -> bool {
 #[verifier::reject_recursive_types(V)]
 pub struct FxHashMap<K, V> { m: std::collections::HashMap<K, V> }
 
-impl FxHashMap<BDD, Rc<BDD>> {
-    pub uninterp spec fn view(&self) -> Map<BDD, Rc<BDD>>;
+impl<K, V> FxHashMap<K, V> {
+    pub uninterp spec fn view(&self) -> Map<K, V>;
 
     #[verifier::external_body]
-    pub fn default() -> (r: Self) ensures r@ == Map::<BDD, Rc<BDD>>::empty() { unimplemented!() }
+    pub fn default() -> (r: Self) ensures r@ == Map::<K, V>::empty() { unimplemented!() }
 
     #[verifier::external_body]
-    pub fn insert(&mut self, k: BDD, v: Rc<BDD>) -> (r: Option<Rc<BDD>>)
+    pub fn insert(&mut self, k: K, v: V) -> (r: Option<V>)
         ensures final(self)@ == old(self)@.insert(k, v)
     { unimplemented!() }
 }
@@ -225,11 +227,40 @@ impl FxHashMap<BDD, Rc<BDD>> {
 #[verifier::reject_recursive_types(T)]
 pub struct RefCell<T> { c: std::cell::RefCell<T> }
 
-// handle returned by borrow()/borrow_mut(): every read may assume table_inv, every write must preserve it
+// handle on a table that is NOT the intern table: nothing is known about what it holds
+#[verifier::external_body]
+#[verifier::reject_recursive_types(K)]
+#[verifier::reject_recursive_types(V)]
+pub struct MapRef<'a, K, V> { r: &'a u8, p: core::marker::PhantomData<(K, V)> }
+
+impl<K, V> RefCell<FxHashMap<K, V>> {
+    #[verifier::external_body]
+    pub fn new(m: FxHashMap<K, V>) -> (r: Self) { unimplemented!() }
+    #[verifier::external_body]
+    pub fn borrow(&self) -> (r: MapRef<'_, K, V>) { unimplemented!() }
+    #[verifier::external_body]
+    pub fn borrow_mut(&self) -> (r: MapRef<'_, K, V>) { unimplemented!() }
+}
+
+impl<'a, K, V> MapRef<'a, K, V> {
+    #[verifier::external_body]
+    pub fn get(&self, k: &K) -> (r: Option<&V>) { unimplemented!() }
+    #[verifier::external_body]
+    pub fn insert(&mut self, k: K, v: V) -> (r: Option<V>) { unimplemented!() }
+    #[verifier::external_body]
+    pub fn contains_key(&self, k: &K) -> (r: bool) { unimplemented!() }
+    #[verifier::external_body]
+    pub fn len(&self) -> (r: usize) { unimplemented!() }
+}
+
+#[verifier::external_body]
+pub struct InternTable { c: std::cell::RefCell<std::collections::HashMap<BDD, Rc<BDD>>> }
+
+// handle returned by InternTable::borrow()/borrow_mut(): every read may assume table_inv, every write must preserve it
 #[verifier::external_body]
 pub struct TableRef<'a> { r: &'a u8 }
 
-impl RefCell<FxHashMap<BDD, Rc<BDD>>> {
+impl InternTable {
     #[verifier::external_body]
     pub fn new(m: FxHashMap<BDD, Rc<BDD>>) -> (r: Self)
         requires table_inv(m@)
